@@ -842,7 +842,58 @@ def gen_compiler_bits(skel: Dict[str, str]) -> List[str]:
     names = {n.name for n in cls.body if isinstance(n, ast.FunctionDef)}
     if "get_nbits_of_integer" in names or "format_type" in names:
         raise Broken("translator: GoFormatter overrides get_nbits_of_integer / format_type")
+    pin_renderer(skel)
     return out
+
+
+PINNED_FILES = ["compiler/bitproto/renderer/impls/go/formatter.py",
+                "compiler/bitproto/renderer/impls/go/renderer.py",
+                "compiler/bitproto/renderer/formatter.py",
+                "compiler/bitproto/renderer/block.py",
+                "compiler/bitproto/renderer/renderer.py"]
+
+
+def _opmode_name(name: str) -> bool:
+    n = name.lower()
+    return "op_mode" in n or "opmode" in n
+
+
+def pin_renderer(skel: Dict[str, str]) -> None:
+    """The model of the emitted Go text (GoRt.go_cls_of / go_proc_of / go_type_of) is written by
+    hand after the Go renderer, the Go formatter and the shared formatter / block functions they
+    call.  T1 ties it to the text of the SAMPLED schemas only, so every function of those files
+    (optimization-mode ones excepted: property C04) is pinned by an AST digest, together with
+    the list of functions per class and the non-function statements (module constants, class
+    attributes): any edit there is at least a broken tie."""
+    for rel in PINNED_FILES:
+        tree = ast.parse(open(os.path.join(vlib.REPO, rel)).read())
+        short = rel.split("bitproto/", 1)[1]
+
+        def scope(body, prefix: str) -> None:
+            names, other = [], []
+            for n in body:
+                if isinstance(n, (ast.FunctionDef, ast.AsyncFunctionDef)):
+                    if _opmode_name(n.name):
+                        continue
+                    names.append(n.name)
+                    skel[f"{short}:{prefix}{n.name}"] = hashlib.sha256(
+                        translate.skeleton_digest(n).encode()).hexdigest()[:32]
+                elif isinstance(n, ast.ClassDef):
+                    if _opmode_name(n.name):
+                        continue
+                    names.append("class " + n.name)
+                    other.append("bases " + n.name + " " + ",".join(ast.dump(b) for b in n.bases))
+                    scope(n.body, prefix + n.name + ".")
+                elif isinstance(n, (ast.Import, ast.ImportFrom)):
+                    continue
+                elif isinstance(n, ast.Expr) and isinstance(n.value, ast.Constant) and isinstance(n.value.value, str):
+                    continue                       # docstring
+                else:
+                    other.append(ast.dump(n))
+            skel[f"{short}:{prefix}<members>"] = hashlib.sha256(
+                ("|".join(names) + "#" + "|".join(other)).encode()).hexdigest()[:32]
+
+        scope(tree.body, "")
 
 
 GENERATORS = {"GenGo.v": gen_go}
